@@ -33,6 +33,10 @@ CHECKS = {
          'Arbitrary bytes decoded into (flags, 64 tx variants, index, scriptSig, scriptPubKey) in five modes are run through VerifyScript/EvalScript; '
          'only ValidationError may escape, inputs and cached ids must be unchanged and captured error state must respect the limits; eight (16) '
          'campaigns from empty and seeded corpora; every truncation point of generated structured scripts.', TRUST),
+ 'C09': ('exploration', 'Hypothesis stateful testing (RuleBasedStateMachine, model-based) + exhaustive enumeration of short histories; invariant after every step = reference encoding of a per-object model',
+         'A pool of mutable transactions, immutable snapshots, mutable copies, standalone part copies and blocks is driven by 26 rules; after every '
+         'step every object must serialise to the reference encoding of its own model with matching txid/wtxid/hash(), so aliasing and stale caches '
+         'surface on a later step. All 19,683 histories of length 3 over a 27-op catalogue; setattr/delattr on every slot of nine immutable classes.', TRUST),
  'C13': ('exploration', 'Hypothesis differential vs an independent pure-Python secp256k1 / strict-DER / Base58Check reference; exhaustive prefix-byte enumeration for public keys',
          'Public-key derivation, WIF text and round trip on all four chains, strict-DER low-S validity of fresh library signatures, verify() on a '
          'ten-class (r,s) matrix and is_fullyvalid on 14 malformed-key classes are compared with a reference written from the curve equation.', TRUST),
